@@ -100,7 +100,20 @@ def main():
                         add("tri-roundtrip", nodes=nodes, d=d, s=s, t=t, family=fam)
                     add("tri-off", nodes=nodes, d=d, point=[Fr(50), Fr(50)])
                     add("tri-off", nodes=nodes, d=d, point=[Fr(-1, 2), Fr(-1, 2)])
+        # one coordinate affine in one parameter + that parameter at a dyadic break point of the 4-way subdivision
+        for d in (1, 2, 3, 4):
+            for _ in range(reps):
+                nodes = valid_triangle(rnd, d, False)
+                k = 0
+                for kk in range(d + 1):
+                    for j in range(d + 1 - kk):
+                        nodes[0][k] = Fr(4 * j, d) if d in (1, 2, 4) else Fr(3 * j, d)
+                        k += 1
+                for s, t in [(Fr(1, 4), Fr(0.3)), (Fr(1, 2), Fr(float(rnd.uniform(0.05, 0.45)))), (Fr(1, 8), Fr(float(rnd.uniform(0.05, 0.8))))]:
+                    add("tri-roundtrip", nodes=nodes, d=d, s=s, t=t, family="affine-x")
         add("tri-wrong-shape", nodes=valid_triangle(rnd, 2, True), d=2)
+        for shape in ("row", "flat", "extra-row", "two-columns"):
+            add("curve-wrong-shape", nodes=monotone_net(rnd, 3, 2), shape=shape)
 
     # ---- model queries (curve part)
     drv = C.Driver()
@@ -197,9 +210,11 @@ def main():
                     res.mismatch("locate_point(curve)", rc, str(got), str(model), "None-ness differs from the model on a clearly off-shape point")
             elif kind == "curve-wrong-shape":
                 crv = bezier.Curve(arr, len(nodes[0]) - 1)
+                bad = {"row": np.asfortranarray([[0.5, 1.0]]), "flat": np.array([0.5, 1.0]), "extra-row": np.asfortranarray([[0.5], [1.0], [0.0]]),
+                       "two-columns": np.asfortranarray([[0.5, 0.5], [1.0, 1.0]])}[kw.get("shape", "row")]
                 try:
-                    crv.locate(np.asfortranarray([[0.0, 1.0]]))
-                    res.failure("locate:wrong-shape-not-raised", "Curve.locate accepted a point of the wrong shape", rc)
+                    out = crv.locate(bad)
+                    res.failure("locate:wrong-shape-not-raised", "Curve.locate accepted a point of shape %r (returned %r) instead of raising ValueError" % (bad.shape, out), rc)
                 except ValueError:
                     pass
             elif kind == "tri-roundtrip":
